@@ -452,19 +452,28 @@ func init() {
 var c11Spaces = []string{" ", "\u00a0", "\u2028", "\u2029", "\u3000", "\u1680", "\u2003", "\ufeff", "\u0085", "\u200b"}
 
 func c11Related(r *fw.Rec, rr *prng.R) {
-	g := &c11Gen{r: rr, tags: map[string]bool{}}
 	str := func() string {
-		s := g.str()
-		k := 1 + rr.Intn(len(s)-1)
-		for k > 1 && s[k-1] == '\\' {
-			k--
+		// like g.str(), with the place holder between two units (never inside an
+		// escape, never between the halves of a surrogate pair)
+		n := rr.Intn(7)
+		at := rr.Intn(n + 1)
+		var sb strings.Builder
+		sb.WriteByte('"')
+		for k := 0; k <= n; k++ {
+			if k == at {
+				sb.WriteString("\x00")
+			}
+			if k == n {
+				break
+			}
+			if rr.Intn(3) == 0 {
+				sb.WriteString(c11Escapes[rr.Intn(len(c11Escapes))])
+			} else {
+				sb.WriteString(c11Raw[rr.Intn(len(c11Raw))])
+			}
 		}
-		// (between two units, never inside an escape: units are either one raw
-		// character or start with a backslash)
-		for k < len(s)-1 && !strings.ContainsRune("\\\"", rune(s[k])) && s[k] >= 0x80 && s[k]&0xC0 == 0x80 {
-			k++
-		}
-		return s[:k] + "\x00" + s[k:]
+		sb.WriteByte('"')
+		return sb.String()
 	}
 	var tmpl string
 	switch rr.Intn(4) {
